@@ -488,3 +488,38 @@ for k in ("C08", "C19"):
     for h in reg[k]["harnesses"]:
         if h["name"] == "VH_PL_HttpProcess":
             h["labels"] = sorted(set(h["labels"] + ["C11:http-hand-off-attempt"]))
+
+# ---- fifth session: lifecycle wiring of every subsystem (constructor -> Start -> Enqueue -> Stop) and of the kernel AIO / API
+# (every label of these harnesses is posed: labels=[]). The go statements of the Start functions are recorded (function and
+# receiver), so "every constructed worker is launched exactly once" is an obligation on the real Start.
+def W(name, pkg, reach=("done",)):
+    return {"name": name, "pkg": pkg, "labels": [], "reach": list(reach)}
+W_AIO = W("VH_W_AioLifecycle", "internal/aio", ("started", "start-failed", "stopped"))
+W_API = W("VH_W_ApiLifecycle", "internal/api", ("stopped",))
+W_ECHO = W("VH_W_Echo", "internal/app/subsystems/aio/echo")
+W_ROUTER = W("VH_W_Router", "internal/app/subsystems/aio/router")
+W_SENDER = W("VH_W_Sender", "internal/app/subsystems/aio/sender", ("started", "start-failed", "done"))
+W_SENDERPL = W("VH_W_SenderPlugins", "internal/app/subsystems/aio/sender")
+W_HTTPPL = W("VH_W_HttpPlugin", "internal/app/plugins/http")
+W_POLLPL = W("VH_W_PollPlugin", "internal/app/plugins/poll")
+W_SQ = W("VH_W_Store", SQ, ("done", "schema-failed"))
+W_PG = W("VH_W_Store", PG, ("done", "schema-failed"))
+W_APICFG = W("VH_CFG_APISubsystems", "cmd/config")
+for k, hs in {"C12": [W_AIO, W_API, W_ECHO, W_ROUTER, W_SENDER, W_SQ, W_PG, W_HTTPPL, W_POLLPL],
+              "C11": [W_AIO, W_ROUTER, W_SENDER, W_SENDERPL, W_HTTPPL, W_POLLPL, W_SQ, W_PG],
+              "C06": [W_AIO, W_SQ, W_PG],
+              "C08": [W_ROUTER, W_SENDER, W_SENDERPL, W_HTTPPL],
+              "C13": [W_APICFG, W_API],
+              "C15": [W_APICFG],
+              "C16": [W_SQ, W_PG],
+              "C17": [W_PG],
+              "C18": [W_POLLPL, W_SENDERPL],
+              "C19": [W_SENDERPL, W_ROUTER, W_SENDER]}.items():
+    for h in hs:
+        reg[k]["harnesses"].append(dict(h))
+reg["C12"]["explanation"] += "; lifecycle wiring: for the kernel AIO/API and every subsystem (echo, router, sender, both stores, http and poll transports) the real constructor, Start, Enqueue and Stop are executed: a submission is routed to the subsystem of its kind, Enqueue accepts exactly while the queue has room and a refused submission is not queued (the caller then answers queue-full), every constructed worker is launched exactly once on the subsystem's queue, Stop closes the queues"
+reg["C11"]["explanation"] += "; lifecycle wiring: every worker the progress lemmas rely on (store, router, sender, transports) is launched exactly once by the real Start of its subsystem, and the AIO starts and flushes every registered subsystem"
+reg["C06"]["explanation"] += "; start-up on an existing database: the real Start of both stores runs only idempotent schema statements (CREATE ... IF NOT EXISTS, bookkeeping insert with DO NOTHING) on the opened handle, touches no stored row, and launches no worker when the schema set-up fails"
+reg["C15"]["explanation"] += "; wiring: the real Config.APISubsystems instantiates exactly the enabled front ends under their own kinds"
+for k in ("C12", "C11", "C06", "C08", "C13", "C15", "C16", "C17", "C18", "C19"):
+    reg[k]["assumptions"] = reg[k].get("assumptions", []) + ["wiring harnesses: goroutines launched by Start functions are not run; the launch (function, receiver) is recorded and is what the obligations speak about"]
